@@ -13,6 +13,7 @@ import GFO.Model.Local
 import GFO.Model.GridBackend
 import GFO.Model.Population
 import GFO.Model.Evolution
+import GFO.Model.Pattern
 open GFO GFO.Proto
 
 /-- one recorded backend interaction of the real run -/
@@ -52,6 +53,7 @@ structure Script where
   loc : Option (LocalCfg × Local) := none       -- when present: the COMPLETE backend model (GFO.Model.Local) is driven instead
   grid : Option (GridCfg × GridSt) := none      -- when present: the complete grid search model (GFO.Model.GridBackend)
   pt : Option (PopCfg × GASt) := none           -- when present: a complete population model (GFO.Model.Population / Evolution)
+  pat : Option (PatCfg × PatSt) := none         -- when present: the complete pattern search model (GFO.Model.Pattern)
 deriving Inhabited
 
 def Script.raisesNow (s : Script) : Bool := match s.queue with
@@ -105,7 +107,7 @@ def scripted : Backend Script where
     | none, none => scriptedOnly.finishInit s
 
 /-- … and the complete population model when that is the one loaded -/
-def backendOf : Backend Script where
+def backendPop : Backend Script where
   initPos s := match s.pt with
     | some (cfg, g) => ((popBackend cfg).initPos g).map (fun x => (x.1, { s with pt := some (cfg, x.2) }))
     | none => scripted.initPos s
@@ -121,6 +123,24 @@ def backendOf : Backend Script where
   finishInit s := match s.pt with
     | some (cfg, g) => ((popBackend cfg).finishInit g).map (fun g' => { s with pt := some (cfg, g') })
     | none => scripted.finishInit s
+
+/-- … and the complete pattern search model -/
+def backendOf : Backend Script where
+  initPos s := match s.pat with
+    | some (cfg, g) => ((patBackend cfg).initPos g).map (fun x => (x.1, { s with pat := some (cfg, x.2) }))
+    | none => backendPop.initPos s
+  iterate s := match s.pat with
+    | some (cfg, g) => ((patBackend cfg).iterate g).map (fun x => (x.1, { s with pat := some (cfg, x.2) }))
+    | none => backendPop.iterate s
+  evalInit s x := match s.pat with
+    | some (cfg, g) => ((patBackend cfg).evalInit g x).map (fun g' => { s with pat := some (cfg, g') })
+    | none => backendPop.evalInit s x
+  evaluate s x := match s.pat with
+    | some (cfg, g) => ((patBackend cfg).evaluate g x).map (fun g' => { s with pat := some (cfg, g') })
+    | none => backendPop.evaluate s x
+  finishInit s := match s.pat with
+    | some (cfg, g) => ((patBackend cfg).finishInit g).map (fun g' => { s with pat := some (cfg, g') })
+    | none => backendPop.finishInit s
 
 def showTracker (t : Tracker) : String :=
   s!"new={showOpt showPos t.posNew}:{showF t.scoreNew} cur={showOpt showPos t.posCurrent}:{showF t.scoreCurrent} " ++
@@ -317,7 +337,10 @@ def exec (m : M) (cmd : String) : P (M × List String) := do
     | none, none =>
       match m.d.bst.pt with
       | some (cfg, g) => pure ({ m with d := { m.d with bst := { m.d.bst with pt := some (cfg, { g with pop := { g.pop with tape := g.pop.tape ++ [e] } }) } } }, [])
-      | none => throw "no complete backend"
+      | none =>
+        match m.d.bst.pat with
+        | some (cfg, g) => pure ({ m with d := { m.d with bst := { m.d.bst with pat := some (cfg, { g with tape := g.tape ++ [e] }) } } }, [])
+        | none => throw "no complete backend"
   | "gnew" => do
     let nInits ← pNat
     let dirTok ← tok
@@ -362,6 +385,18 @@ def exec (m : M) (cmd : String) : P (M × List String) := do
       pure (m, [s!"outer {showTracker g.pop.tr}"] ++ g.pop.members.map (fun mb => s!"member {showTracker mb.tr}") ++
                 [s!"pop cur={g.pop.cur} tapeLeft={g.pop.tape.length} offspring={showList showPos g.offspring}"])
     | none => pure (m, ["err:no-population-backend"])
+  | "tnew" => do
+    let nInits ← pNat
+    let nPos ← pNat
+    let rrp ← pRat
+    let initL ← pList (pN m.sp.dims.length pInt)
+    let cfg : PatCfg := { nPositions := nPos, randRestP := rrp, nDims := m.sp.dims.length, geo := m.sp.geo }
+    pure ({ m with d := { nInits := nInits, bst := { pat := some (cfg, { initL := initL }) } }, call := none, warm := [], steps := #[], byCall := #[] }, ["ok"])
+  | "tstate" =>
+    match m.d.bst.pat with
+    | some (_, g) =>
+      pure (m, [s!"tracker {showTracker g.tr}", s!"pattern {showList showPos g.pattern} iter={showBool g.iterState} tapeLeft={g.tape.length}"])
+    | none => pure (m, ["err:no-pattern-backend"])
   | "lstep" => do
     let dur ← pRat; let r ← pRes
     pure ({ m with steps := m.steps.push (r, dur) }, [])
